@@ -16,4 +16,4 @@ def run(rep, tier, seed):
                        'application of WHOLE batches')
 
 def replay(rep, path):
-    print(open(path).read()[:3000]); return 1
+    return k3check.replay_crash(rep, path)
